@@ -347,10 +347,11 @@ def p5_comment_ascii(ci: int, pos: int, tgt: int, full: bool):
     assume(0 <= ci <= 127 and 0 <= pos <= 2 and 0 <= tgt <= 2)
     ch = chr(pc.pin(ci, 0, 127))
     text = [ch + 'ab', 'a' + ch + 'b', 'ab' + ch][pc.pin(pos, 0, 2)]
+    tg = pc.pin(tgt, 0, 2)
     with pc.untraced():
         root = FST(CMT_SRC, 'exec')
         pc.reset_globals()
-        node = [root.body[0], root.body[0].body[0], root.body[1]][pc.pin(tgt, 0, 2)]
+        node = [root.body[0], root.body[0].body[0], root.body[1]][tg]
         dump0 = ast.dump(root.a, include_attributes=True)
     sig = f'line_comment_ascii.{ord(ch):#04x}'
     try:
